@@ -35,7 +35,7 @@ void Runner::viol(const char *prop, const std::string &cls, const std::string &s
   // children (C20) as well as a violation of the single-threaded property
   static const char *const xt[] = { "stdin-corrupted", "stdin-duplicated", "stdin-lost", "no-eof-after-close", "output-corrupted", "wrong-status", "double-close", "foreign-close", "closed-stream-not-reported", "closed-error-on-open-stdin", "wrong-working-directory", "wrong-program-resolved",
                                      "environment-differs", "descriptor-inherited", "cwd-changed", "environ-changed", "stream-misconnected", "wrong-error", "signal-mask-changed",
-                                     "child-mask-not-empty", "child-umask-differs" };
+                                     "child-mask-not-empty", "child-umask-differs", "blocks-past-bound", "wait-deadline-early", "deadline-event-early", "deadline-missed", "wait-timeout-early" };
   if (tpos.size() > 1 && strcmp(prop, "C20") != 0)
     for (const char *c : xt)
       if (cls == c) { viol("C20", "cross-talk-" + cls, sigrest, detail, op); break; }
@@ -497,6 +497,7 @@ RunResult run_plan(const Plan &plan, const RunOpts &opts) {
   r.out.probes[P_getcwd_grew] += K->n_getcwd_erange;
   r.out.probes[P_data_at_death] += K->n_data_at_death;
   r.out.probes[P_descendant_left] += K->n_descendants;
+  r.out.probes[P_thread_stalled] += K->n_stalls;
   r.out.probes[P_wall_clock_stepped] += K->w.clock_step_at_ms >= 0 && K->now_ns >= K->w.clock_step_at_ms * 1000000 ? 1 : 0;  // whether or not the library reads that clock
   r.out.probes[P_reoccupied] += K->reoccupied.size();
   for (auto &f : K->faults) {
